@@ -381,3 +381,21 @@ def run(F, S, R, tier):
         else:
             R.ok("mustcall/preload-missing", "a queued block that is no longer stored is dropped, not unwrapped", [gb[0].where()])
     R.guard("mustcall/preload-missing", preload_missing)
+
+    # 12. F29 (fixed): the verify thread publishes a block's result (ext, snapshot, status) BEFORE it removes the hash from is_pending_verify.
+    # A reader that wants "stored or about to be" must therefore read is_pending_verify first and the status second; in the opposite order both
+    # reads can say no for a block that has just been verified, and its orphaned descendants are never released.
+    def read_order():
+        for fn in ("search_orphan_leader", "process_lonely_block"):
+            b = F.need(OB + fn)
+            R.fn(b)
+            pend = [c for c in b.calls_to(r"dashmap::set::DashSet::<.*>::contains$")]
+            stat = b.calls_to(r"Shared::get_block_status$")
+            R.sites += len(pend) + len(stat)
+            if not pend or not stat:
+                R.bad("order/pending-read-before-status/%s/anchor-lost" % fn, "%s no longer reads both is_pending_verify and the block status" % fn, [b.where()])
+            elif all(any(b.dominates(p_.bb, s_.bb) and p_.bb != s_.bb for p_ in pend) for s_ in stat):
+                R.ok("order/pending-read-before-status/" + fn, "%s reads is_pending_verify before the block status" % fn, [pend[0].where(), stat[0].where()])
+            else:
+                R.bad("order/pending-read-before-status/" + fn, "%s reads the block status before is_pending_verify: a block verified between the two reads is seen as neither stored nor pending (F29)" % fn, [stat[0].where()])
+    R.guard("order/pending-read-before-status", read_order)
